@@ -42,7 +42,7 @@ def c10_jobs(tier):
 
 PROPS['C10'] = dict(
     level='exploration', jobs=c10_jobs,
-    rule='heapfill: seeded G1 (2D/3D grid diffusion), G2 graph Laplacian, G3 convection-diffusion (symmetric and non-symmetric structure) and G5 Kronecker block inputs (200..1500 rows); per input 12-18 (coarsening, relaxation, solver, level setting, adapter) cells chosen so that all 36 coarsening x relaxation pairs are visited every three inputs, plus relaxation-only preconditioners; every run repeated from fresh objects under each fill pattern. degenerate: 14 G6 inputs (1x1, 2x2 identity, diagonal, disconnected blocks, rows with only positive off-diagonals, all-positive off-diagonals, smaller than coarse_enough, weak couplings that coarsen to nothing, isolated Dirichlet rows, unsorted rows, ...) x 4 coarsenings x 9 relaxations x 9 solvers x 4 level settings (default coarse_enough > n, max_levels = 1, coarse_enough = 1 with and without direct_coarse) x 2 adapters (copying tuple, zero-copy with harness-owned arrays). One non-trivial sub-case per (input, configuration) run that was started; distinct = distinct (sub-check, descriptor) hash.',
+    rule='heapfill: seeded G1 (2D/3D grid diffusion), G2 graph Laplacian, G3 convection-diffusion (symmetric and non-symmetric structure) and G5 Kronecker block inputs (200..1500 rows); per input 12-18 (coarsening, relaxation, solver, level setting, adapter) cells chosen so that all 36 coarsening x relaxation pairs are visited every three inputs, plus relaxation-only preconditioners; every run repeated from fresh objects under each fill pattern and once more in reverse order (different allocation history); inside every run the preconditioner is applied to the same vector on the fresh object and again after the solve, and the solve is repeated on the used object (all bitwise equal). degenerate: 14 G6 inputs (1x1, 2x2 identity, diagonal, disconnected blocks, rows with only positive off-diagonals, all-positive off-diagonals, smaller than coarse_enough, weak couplings that coarsen to nothing, isolated Dirichlet rows, unsorted rows, ...) x 4 coarsenings x 9 relaxations x 9 solvers x 4 level settings (default coarse_enough > n, max_levels = 1, coarse_enough = 1 with and without direct_coarse) x 2 adapters (copying tuple, zero-copy with harness-owned arrays). One non-trivial sub-case per (input, configuration) run that was started; distinct = distinct (sub-check, descriptor) hash.',
     exhaustive_note='degenerate: the full product G6 inputs x 4 coarsenings x 9 relaxations x 4 level settings x 2 adapters x 9 solvers, 1 (quick) / 6 (thorough) seeded instances per family',
     min_nontrivial=dict(quick=25000, thorough=150000),
     require_obs=dict(quick=['runs_completed', 'fill_pairs_compared', 'memcheck_processes'], thorough=['runs_completed', 'fill_pairs_compared', 'memcheck_processes']),
@@ -50,6 +50,6 @@ PROPS['C10'] = dict(
         'prior heap contents are modelled by five fill patterns of fresh allocations (0x00, 0xFF, 0xAA, 0x55, xorshift bytes), overwritten freed blocks, M_PERTURB and a scribbled stack; an uninitialised read that influences neither control flow nor output under any of them is invisible',
         'ASan/UBSan/LSan and valgrind memcheck are trusted; UBSan null is disabled (amgcl forms &v[0] on empty vectors without dereferencing)',
         'single-threaded runs only, as the property states'],
-    technique='in-harness heap-content differential (replaced operator new/delete, one forked child per fill pattern, bitwise digests of hierarchy / preconditioner application / solution), ASan+UBSan+LSan on the degenerate sweep with zero-copy ownership checks, valgrind memcheck, truthful-failure oracle',
+    technique='in-harness heap-content and call-history differential (replaced operator new/delete, one forked child per fill pattern, bitwise digests of hierarchy / preconditioner application / solution), ASan+UBSan+LSan on the degenerate sweep with zero-copy ownership checks, valgrind memcheck, truthful-failure oracle',
     level_text='Every preconditioner/solver cell is constructed and applied from fresh objects under five different heap fill patterns and allocation histories and its complete hierarchy, preconditioner action and solution are compared bitwise; the degenerate-input sweep runs all cells, level settings and adapters under ASan+UBSan+LSan (live asserts) with crash attribution per run, lent arrays are checked for writes and double frees, and a reduced workload runs under memcheck. Held means no observed execution depended on heap contents, corrupted memory or misreported convergence; it is not a proof for unobserved inputs.',
     level_note='trusts the sanitizer runtimes and memcheck; multi-threaded runs and block-valued / complex backends are outside this check')
